@@ -1,0 +1,30 @@
+//go:build verif
+
+package gpbft
+
+import "sort"
+
+// verifDrainOrder, when set by a deterministic simulator, chooses the relative order of the
+// per-sender groups of drained messages (which is otherwise decided by Go map iteration).
+var verifDrainOrder func(n int) []int
+
+// VerifSetDrainOrder installs the permutation source used by verifOrderDrained.
+func VerifSetDrainOrder(f func(n int) []int) { verifDrainOrder = f }
+
+// verifOrderDrained puts drained messages into a canonical order (by sender) and then applies
+// the simulator-chosen permutation, so that a seeded run does not depend on map iteration order.
+func verifOrderDrained(msgs []*GMessage) {
+	sort.SliceStable(msgs, func(i, j int) bool { return msgs[i].Sender < msgs[j].Sender })
+	if verifDrainOrder == nil || len(msgs) < 2 {
+		return
+	}
+	perm := verifDrainOrder(len(msgs))
+	if len(perm) != len(msgs) {
+		return
+	}
+	out := make([]*GMessage, len(msgs))
+	for i, p := range perm {
+		out[i] = msgs[p]
+	}
+	copy(msgs, out)
+}
